@@ -1,13 +1,14 @@
 import UflVerif.Model.SExpr
 import UflVerif.Model.Renaming
-open UflVerif SExp
+import UflVerif.Model.SigWire
+open UflVerif SExp UflVerif.SigWire
 
 /- C12 driver.  One S-expression request per line, one reply per line.
 
    cexpr ::= (I v) | (R n d) | (C a b c d) | (Z (sh) ((c d)..)) | (M idx..) | (O Name (aux) cexpr..)
            | (TC count space (shape)) | (TA number part space (shape)) | (TK count mesh (shape))
            | (TG Cls mesh (shape)) | (TL count) | (TP Cls key (shape))
-   mesh  ::= (m id gdim tdim celem)        space ::= (fs mesh elem)          (celem, elem, key percent-encoded)
+   mesh  ::= (m id gdim tdim celem)        space ::= (fs mesh elem [label])  (celem, elem, key, label percent-encoded)
    form  ::= (form (itg itype mesh sub ((k v)..) cexpr)..)     sub ::= (si v) | (ss s) | (st v..)
    ren   ::= (ren (idx (a b)..) (coeff (a b)..) (const (a b)..) (label (a b)..) (mesh (a b)..))   identity elsewhere
    nu    ::= (nu (idx c0 c1 ..) (coeff ..) (const ..) (label ..) (mesh ..))      k-th object of a class gets count ck
@@ -19,168 +20,6 @@ open UflVerif SExp
    (renform ren form form)        -> (ok true|false)
    (run R|N nu (prog instr..))    -> (ok cexpr..) | (none)  the expression registers after the history
 -/
-
-def meshOf : SExp → Option MeshD
-  | .list [.atom "m", i, g, t, .atom ce] => do
-      pure { id := (← toNat? i), gdim := (← toNat? g), tdim := (← toNat? t), celem := SExp.decode ce }
-  | _ => none
-
-def spaceOf : SExp → Option SpaceD
-  | .list [.atom "fs", m, .atom el] => do pure { mesh := (← meshOf m), elem := SExp.decode el }
-  | _ => none
-
-mutual
-def cexprOf : SExp → Option CExpr
-  | .list [.atom "I", v] => (toInt? v).map .int
-  | .list [.atom "R", n, d] => do pure (.real (← toInt? n) (← toNat? d))
-  | .list [.atom "C", a, b, c, d] => do pure (.cplx (← toInt? a) (← toNat? b) (← toInt? c) (← toNat? d))
-  | .list [.atom "Z", sh, .list fi] => do pure (.zero (← natList? sh) (← fi.mapM Expr.pairOf))
-  | .list (.atom "M" :: is) => (is.mapM Expr.idxOf).map .mi
-  | .list [.atom "TC", c, sp, sh] => do pure (.term (.coeff (← toNat? c) (← spaceOf sp) (← natList? sh)))
-  | .list [.atom "TA", n, p, sp, sh] => do pure (.term (.arg (← toNat? n) (← toInt? p) (← spaceOf sp) (← natList? sh)))
-  | .list [.atom "TK", c, m, sh] => do pure (.term (.const (← toNat? c) (← meshOf m) (← natList? sh)))
-  | .list [.atom "TG", .atom cls, m, sh] => do pure (.term (.geo cls (← meshOf m) (← natList? sh)))
-  | .list [.atom "TL", c] => do pure (.term (.label (← toNat? c)))
-  | .list [.atom "TP", .atom cls, .atom key, sh] => do pure (.term (.plain cls (SExp.decode key) (← natList? sh)))
-  | .list (.atom "O" :: .atom name :: aux :: args) => do
-      pure (.op (Op.ofName name) (← natList? aux) (← cexprOfL args))
-  | _ => none
-def cexprOfL : List SExp → Option (List CExpr)
-  | [] => some []
-  | x :: xs => do pure ((← cexprOf x) :: (← cexprOfL xs))
-end
-
-def meshS (m : MeshD) : SExp :=
-  .list [.atom "m", .atom (toString m.id), .atom (toString m.gdim), .atom (toString m.tdim), .atom (SExp.encode m.celem)]
-def spaceS (s : SpaceD) : SExp := .list [.atom "fs", meshS s.mesh, .atom (SExp.encode s.elem)]
-
-def termS : CTerm → SExp
-  | .coeff c sp sh => .list [.atom "TC", .atom (toString c), spaceS sp, Expr.natsS sh]
-  | .arg n p sp sh => .list [.atom "TA", .atom (toString n), .atom (toString p), spaceS sp, Expr.natsS sh]
-  | .const c m sh => .list [.atom "TK", .atom (toString c), meshS m, Expr.natsS sh]
-  | .geo cls m sh => .list [.atom "TG", .atom cls, meshS m, Expr.natsS sh]
-  | .label c => .list [.atom "TL", .atom (toString c)]
-  | .plain cls k sh => .list [.atom "TP", .atom cls, .atom (SExp.encode k), Expr.natsS sh]
-
-mutual
-def cexprS : CExpr → SExp
-  | .int v => .list [.atom "I", .atom (toString v)]
-  | .real n d => .list [.atom "R", .atom (toString n), .atom (toString d)]
-  | .cplx a b c d => .list [.atom "C", .atom (toString a), .atom (toString b), .atom (toString c), .atom (toString d)]
-  | .zero sh fi => .list [.atom "Z", Expr.natsS sh, .list (fi.map fun p => .list [.atom (toString p.1), .atom (toString p.2)])]
-  | .mi is => .list (.atom "M" :: is.map Expr.idxS)
-  | .term t => termS t
-  | .op k aux args => .list (.atom "O" :: .atom k.name :: Expr.natsS aux :: cexprSL args)
-def cexprSL : List CExpr → List SExp
-  | [] => []
-  | x :: xs => cexprS x :: cexprSL xs
-end
-
-def subOf : SExp → Option SubId
-  | .list [.atom "si", v] => (toInt? v).map .int
-  | .list [.atom "ss", .atom s] => some (.str (SExp.decode s))
-  | .list (.atom "st" :: vs) => (vs.mapM toInt?).map .tup
-  | _ => none
-
-def kvOf : SExp → Option (String × String)
-  | .list [.atom k, .atom v] => some (SExp.decode k, SExp.decode v)
-  | _ => none
-
-def integralOf : SExp → Option CIntegral
-  | .list [.atom "itg", .atom it, m, sub, .list md, e] => do
-      pure { integrand := (← cexprOf e), itype := SExp.decode it, mesh := (← meshOf m), sub := (← subOf sub), metadata := (← md.mapM kvOf) }
-  | _ => none
-
-def formOf : SExp → Option CForm
-  | .list (.atom "form" :: is) => is.mapM integralOf
-  | _ => none
-
-mutual
-def sigS : SigData → SExp
-  | .str s => .list [.atom "s", .atom (SExp.encode s)]
-  | .raw s => .list [.atom "r", .atom (SExp.encode s)]
-  | .int v => .list [.atom "i", .atom (toString v)]
-  | .none => .list [.atom "n"]
-  | .tup xs => .list (.atom "t" :: sigSL xs)
-  | .lst xs => .list (.atom "l" :: sigSL xs)
-  | .fmt xs => .list (.atom "f" :: sigSL xs)
-  | .hash d => .list [.atom "h", sigS d]
-def sigSL : List SigData → List SExp
-  | [] => []
-  | x :: xs => sigS x :: sigSL xs
-end
-
-def pairsOf (s : SExp) : Option (List (Nat × Nat)) :=
-  match s with
-  | .list (_ :: ps) => ps.mapM Expr.pairOf
-  | _ => none
-
-def fnOfPairs (ps : List (Nat × Nat)) (n : Nat) : Nat :=
-  match ps.find? (fun p => p.1 == n) with
-  | some p => p.2
-  | none => n
-
-def renOf : SExp → Option Ren
-  | .list [.atom "ren", i, c, k, l, m] => do
-      pure ⟨fnOfPairs (← pairsOf i), fnOfPairs (← pairsOf c), fnOfPairs (← pairsOf k), fnOfPairs (← pairsOf l), fnOfPairs (← pairsOf m)⟩
-  | _ => none
-
-def seqOf (s : SExp) : Option (List Nat) :=
-  match s with
-  | .list (_ :: vs) => vs.mapM toNat?
-  | _ => none
-
-def fnOfSeq (xs : List Nat) (k : Nat) : Nat := xs.getD k 0
-
-def nuOf : SExp → Option Ren
-  | .list [.atom "nu", i, c, k, l, m] => do
-      pure ⟨fnOfSeq (← seqOf i), fnOfSeq (← seqOf c), fnOfSeq (← seqOf k), fnOfSeq (← seqOf l), fnOfSeq (← seqOf m)⟩
-  | _ => none
-
-def slotOf : SExp → Option Slot
-  | .list [.atom "F", v] => (toNat? v).map .fixed
-  | .list [.atom "X", r] => (toNat? r).map .reg
-  | _ => none
-
-def instrOf : SExp → Option Instr
-  | .list [.atom "mesh", .atom ce, g, t] => do pure (.mesh (SExp.decode ce) (← toNat? g) (← toNat? t))
-  | .list [.atom "index"] => some .index
-  | .list [.atom "coeff", m, .atom el, sh] => do pure (.coeff (← toNat? m) (SExp.decode el) (← natList? sh))
-  | .list [.atom "const", m, sh] => do pure (.const (← toNat? m) (← natList? sh))
-  | .list [.atom "geo", .atom cls, m, sh] => do pure (.geo cls (← toNat? m) (← natList? sh))
-  | .list [.atom "arg", n, p, m, .atom el, sh] => do pure (.arg (← toNat? n) (← toInt? p) (← toNat? m) (SExp.decode el) (← natList? sh))
-  | .list [.atom "lit", v] => (toInt? v).map .lit
-  | .list [.atom "flt", n, d] => do pure (.flt (← toInt? n) (← toNat? d))
-  | .list [.atom "plain", .atom cls, .atom key, sh] => do pure (.plain cls (SExp.decode key) (← natList? sh))
-  | .list (.atom "mi" :: slots) => (slots.mapM slotOf).map .multiIndex
-  | .list [.atom "zero", sh, .list fi] => do pure (.zero (← natList? sh) (← fi.mapM Expr.pairOf))
-  | .list [.atom "variable", r] => (toNat? r).map .variable
-  | .list [.atom "sum", a, b] => do pure (.sum (← toNat? a) (← toNat? b))
-  | .list [.atom "product", a, b] => do pure (.product (← toNat? a) (← toNat? b))
-  | .list (.atom "node" :: .atom name :: aux :: rs) => do pure (.node (Op.ofName name) (← natList? aux) (← rs.mapM toNat?))
-  | _ => none
-
-def progOf : SExp → Option (List Instr)
-  | .list (.atom "prog" :: is) => is.mapM instrOf
-  | _ => none
-
-def formBeq (f g : CForm) : Bool :=
-  f.length == g.length && (f.zip g).all fun p =>
-    CExpr.beq p.1.integrand p.2.integrand && p.1.itype == p.2.itype && p.1.mesh == p.2.mesh && p.1.sub == p.2.sub && p.1.metadata == p.2.metadata
-
-/- equality of rendered expressions; the `count` slot of a terminal that is not a counted form argument is not part of the
-   model (the serializer fills it with whatever a `count` attribute returns, e.g. -1 for SpatialCoordinate) -/
-def counted (c : String) : Bool := c == "Coefficient" || c == "Argument" || c == "Constant" || c == "Label"
-mutual
-def eqRendered : Expr → Expr → Bool
-  | .term a, .term b => a.cls == b.cls && a.key == b.key && a.shape == b.shape && (!counted a.cls || (a.count == b.count && a.part == b.part))
-  | .op k x as, .op k' x' bs => k == k' && x == x' && eqRenderedL as bs
-  | a, b => Expr.beq a b
-def eqRenderedL : List Expr → List Expr → Bool
-  | [], [] => true
-  | a :: as, b :: bs => eqRendered a b && eqRenderedL as bs
-  | _, _ => false
-end
 
 def answer (line : String) : String :=
   match SExp.read line with
